@@ -171,9 +171,7 @@ func c08Apply(m *stun.Message, u int, poison byte) error {
 	case 7:
 		err = m.GobDecode(data)
 	case 8:
-		// (only with at least two attributes: Encode on an attribute list emptied by hand writes the header before it
-		// resets Length, which no operation the property lists can set up)
-		if _, err = m.Write(data); err == nil && len(m.Attributes) >= 2 {
+		if _, err = m.Write(data); err == nil && len(m.Attributes) >= 1 {
 			m.Attributes = m.Attributes[1:]
 			m.Encode()
 		}
@@ -333,7 +331,7 @@ func c08Run(k c08Case) (outcome, key, detail string) {
 				}
 				if u < nd && u/len(c08Msgs) == 8 {
 					// absolute check: the re-encoded message is the canonical encoding of the attributes that were kept
-					if pm, _ := ref.Parse(c08Msgs[u%len(c08Msgs)]); pm != nil && len(pm.Attrs) >= 2 {
+					if pm, _ := ref.Parse(c08Msgs[u%len(c08Msgs)]); pm != nil && len(pm.Attrs) >= 1 {
 						var keep []ref.EncodeAttr
 						for i, a := range pm.Attrs {
 							if i > 0 {
